@@ -11,7 +11,7 @@ CONSTANT Big
 Seq02(S) == {<< >>} \cup {<<x>> : x \in S} \cup {<<x, y>> : x \in S, y \in S}
 Srvs == {"cal", "card"}
 \* collections: path, display name, description, size limit class, supported set class
-Cols == [path : {"c1", "c2"}, name : {"", "n1", "n2"}, desc : {"", "t1"}, max : {0, 1, 2}, sup : {"none", "one", "two"}]
+Cols == [path : {"c1", "c2"}, name : {"", "n1", "n2"}, desc : {"", "t1"}, max : {0, 1, 2}, sup : {"empty", "none", "one", "two"}]
 ColLists == {<< >>} \cup {<<c>> : c \in {x \in Cols : x.path = "c1"}} \cup
                {<<a, b>> : a \in {x \in Cols : x.path = "c1" /\ x.name = "n1" /\ x.max = 2}, b \in {x \in Cols : x.path = "c2" /\ x.desc = "t1" /\ x.sup # "one"}}
 ColCases == {[k |-> "cols", srv |-> s, cols |-> l] : s \in Srvs, l \in ColLists}
